@@ -215,6 +215,7 @@ static std::string runChild(const Value& sc, bool withPrefix, int& status)
     close(fd[0]);
     alarm(60);
     Session s;
+    law_set_old_style(sc.gets("style", "old") == "old");
     setup(s);
     if (withPrefix)
       for (auto& p : sc.at("prefix").arr) (void)call(p.s(), s);
